@@ -76,3 +76,11 @@ Example C16_example :
   option_map (fun d => (map p_path (d_paths d), op_keys (d_paths d), comp_keys d)) (prepare ex_cfg ex_doc)
   = Some (["/p0"; "/p1"], [("/p0", "get")], ["#/components/schemas/S0"])%string.
 Proof. vm_compute. reflexivity. Qed.
+
+(** A list that is given and empty (include-tags: []) is ignored like an absent one: with four empty lists every
+    operation stays (a filter that takes "given" for "non-empty" removes everything: seeded change C16_r9). *)
+Theorem C16_empty_lists_filter_nothing : forall c d,
+  f_include_tags c = [] -> f_exclude_tags c = [] -> f_include_ids c = [] -> f_exclude_ids c = [] ->
+  op_keys (d_paths (filter_doc c d)) = op_keys (d_paths d).
+Proof. exact empty_lists_filter_nothing. Qed.
+Print Assumptions C16_empty_lists_filter_nothing.
